@@ -7,7 +7,7 @@
 use super::meta::discover_local_fingerprints;
 use super::wire::{cas_decide, read_frame, write_frame, Cas, Hash, Request, Response, VERSION};
 use fs2::FileExt;
-use std::io::{BufReader, BufWriter, Read, Write};
+use std::io::{BufReader, BufWriter, Read, Seek, Write};
 use std::path::{Component, Path, PathBuf};
 
 /// Join a client-supplied relative path under `root`, rejecting absolute paths
@@ -100,15 +100,22 @@ fn handle_get<W: Write>(root: &Path, path: &str, w: &mut W) -> std::io::Result<(
     let Some(dst) = safe_join(root, path) else {
         return write_frame(w, &Response::Error("bad path".into()));
     };
-    match (std::fs::metadata(&dst), current_hash(&dst)) {
-        (Ok(m), Some(hash)) => {
-            write_frame(w, &Response::Content { len: m.len(), hash })?;
-            let mut f = std::fs::File::open(&dst)?;
-            std::io::copy(&mut f, w)?;
-            w.flush()
-        }
-        _ => write_frame(w, &Response::Error("not found".into())),
-    }
+    // Open ONCE and take the length, the hash and the content from that same open
+    // file. Hub files are only ever replaced by rename, so one descriptor sees one
+    // complete version whatever commits meanwhile; three separate path lookups
+    // (stat, hash, open) could announce one version and stream another.
+    let Ok(mut f) = std::fs::File::open(&dst) else {
+        return write_frame(w, &Response::Error("not found".into()));
+    };
+    let mut hasher = blake3::Hasher::new();
+    let Ok(len) = std::io::copy(&mut f, &mut hasher) else {
+        return write_frame(w, &Response::Error("not found".into()));
+    };
+    f.seek(std::io::SeekFrom::Start(0))?;
+    let hash = *hasher.finalize().as_bytes();
+    write_frame(w, &Response::Content { len, hash })?;
+    std::io::copy(&mut f.take(len), w)?;
+    w.flush()
 }
 
 #[allow(clippy::too_many_arguments)]
